@@ -54,7 +54,7 @@ func init() {
 }
 
 func init() {
-	props["C15"] = propSpec{Mode: "sched", Validate: false, Race: true, BudgetS: 60, QuickDeadS: 420, ThorDeadS: 3000,
+	props["C15"] = propSpec{Mode: "sched", Validate: false, Race: true, FatalIsViolation: true, BudgetS: 15, QuickDeadS: 420, ThorDeadS: 3000,
 		Assume: append([]string{"scheduling points are the statements that mention a package-level variable of the module (found by the type-checked instrumenter); interleavings inside one statement and sharing that does not pass through a package-level variable are only covered by the separate free-running -race pass, which is sampling"}, stdAssume...),
 		Rule:   "a case = one scenario of k concurrent Layout calls; states = distinct scheduler state keys (per-thread access counts + per-thread hash of what it read + global snapshot), transitions = (state, granted thread) pairs; every scenario is non-trivial (>= 2 threads over shared package-level variables)"}
 }
